@@ -74,17 +74,22 @@ def effects_under(fn, stmts, val, env=None, keep=(), loops='stop', nm=None):
 
     def switch_body(sw, value):
         body = kids(sw)[-1]
-        res, on = [], False
-        labels = [x for x in kids(body) if x['k'] == 'CaseStmt']
+        flat = []                       # (labels or None, statement)
         for st in kids(body):
-            if st['k'] in ('CaseStmt', 'DefaultStmt'):
-                if (st['k'] == 'CaseStmt' and st.get('casev') == value) or \
-                        (st['k'] == 'DefaultStmt' and not any(l.get('casev') == value for l in labels)):
-                    on = True
-                if on:
-                    inner = [x for x in kids(st) if x['k'] not in ('ImplicitCastExpr', 'IntegerLiteral', 'ConstantExpr', 'DeclRefExpr', 'CharacterLiteral')]
-                    res.extend(inner)
-            elif on:
+            labels = []
+            cur = st
+            while cur is not None and cur['k'] in ('CaseStmt', 'DefaultStmt'):
+                labels.append(cur.get('casev') if cur['k'] == 'CaseStmt' else 'default')
+                nxt = [x for x in kids(cur) if x['k'] not in ('ImplicitCastExpr', 'IntegerLiteral', 'ConstantExpr', 'DeclRefExpr', 'CharacterLiteral')]
+                cur = nxt[-1] if nxt else None
+            flat.append((labels or None, cur))
+        all_labels = [l for ls, _ in flat if ls for l in ls]
+        target = value if value in all_labels else ('default' if 'default' in all_labels else None)
+        res, on = [], False
+        for ls, st in flat:
+            if ls and target in ls:
+                on = True
+            if on and st is not None:
                 if st['k'] == 'BreakStmt':
                     break
                 res.append(st)
